@@ -209,8 +209,14 @@ Theorem twosided_swap_refuted :
     pexact_frac (exact_p (ustat_of x1 x2) Differs) <> pexact_frac (exact_p (ustat_of x2 x1) Differs).
 Proof. exists [1; 2; 3; 5], [1; 1; 1; 1; 1]. vm_compute. discriminate. Qed.
 
-(** ** bounded sweeps (labelled): pruning of table keys does not change the value,
-    and the fast evaluator / subset enumeration agree with the specification *)
+(** ** bounded sweeps (labelled) -- ALL FOUR ARE SUPERSEDED by unbounded theorems and are
+    kept only as regression checks of the definitions by evaluation:
+      pruning_agrees_bounded        <- Proofs/UDistPrune.v  tied_recurrence_correct
+                                       (umemo t n u = count_le t n u, every t with K >= 2 positive runs)
+      fast_evaluator_agrees_bounded <- Proofs/UDistSpecFull.v  fast_count_le_correct, fast_count_ge_correct
+      subsets_agree_bounded         <- Proofs/UDistSpecFull.v  subsets_agree (every predicate P)
+      total_is_count_all_bounded    <- Proofs/UDistSum.v  count_all_total (Vandermonde);
+                                       Proofs/UDistSpecFull.v  total_is_count_all, total_is_binom *)
 Fixpoint comps (fuel : nat) (N : Z) : list (list Z) :=
   match fuel with
   | O => []
@@ -222,22 +228,26 @@ Definition sweep (N : Z) (chk : list Z -> Z -> Z -> bool) : bool :=
              forallb (fun n1 => forallb (chk t n1) (zrange (-1) (2 * (n1 * (N - n1)) + 1))) (zrange 0 N))
           (comps (S (Z.to_nat N)) N).
 
+(** superseded by tied_recurrence_correct (Proofs/UDistPrune.v) *)
 Example pruning_agrees_bounded :
   forallb (fun N => sweep N (fun t n1 u => match t with _ :: _ :: _ => umemo t n1 u =? count_le t n1 u | _ => true end))
           (zrange 2 8) = true.
 Proof. vm_compute. reflexivity. Qed.
 
+(** superseded by fast_count_le_correct / fast_count_ge_correct (Proofs/UDistSpecFull.v) *)
 Example fast_evaluator_agrees_bounded :
   forallb (fun N => sweep N (fun t n1 u => (fast_count_le t n1 u =? count_le t n1 u)
                                             && (fast_count_ge t n1 u =? count_ge t n1 u)))
           (zrange 1 8) = true.
 Proof. vm_compute. reflexivity. Qed.
 
+(** superseded by subsets_agree (Proofs/UDistSpecFull.v) *)
 Example subsets_agree_bounded :
   forallb (fun N => sweep N (fun t n1 u => subsets_count_if (fun w => w <=? u) t n1 =? count_le t n1 u))
           (zrange 1 7) = true.
 Proof. vm_compute. reflexivity. Qed.
 
+(** superseded by count_all_total (Proofs/UDistSum.v) *)
 Example total_is_count_all_bounded :
   forallb (fun N => sweep N (fun t n1 _ => total t n1 =? count_all t n1)) (zrange 1 8) = true.
 Proof. vm_compute. reflexivity. Qed.
